@@ -1,3 +1,100 @@
-(* Props/C05.v -- placeholder while the model is being tied; replaced by the theorems. *)
-From Coq Require Import List Bool NArith.
-From MV Require Import Base.Bytes Model.Http2Streams.
+(* Props/C05.v -- HTTP/2 streams are isolated and correctly mapped.
+   Statements only; each is closed by [exact] of a lemma proved elsewhere.
+   creach fixd fq s h : the Http2Client model (mapping, queue, Http2Connection, BufferedH2Connection, mini-h2) reaches
+   state s by the input history h (HttpEvents from the proxy core, frame batches from the server, close);
+   fixd / fq select the shipped (false) or repaired (true) BufferedH2Connection.send_data / queue handling. *)
+From Coq Require Import List Bool NArith ZArith.
+From MV Require Import Base.Bytes Model.Http2Streams Proofs.Http2StreamsMap Proofs.Http2StreamsH2 Proofs.Http2StreamsBuf
+  Proofs.Http2StreamsC05.
+Import ListNotations.
+Open Scope N_scope.
+
+(* (1) our_stream_id and their_stream_id are mutually inverse in every reachable state, for every history in which the
+   first event of each client stream is RequestHeaders (what HttpStream sends; checked on every recorded history). *)
+Theorem C05_map_bijective : forall fixd fq s h, creach fixd fq s h -> wf_first [] h = true ->
+  forall c j, dget c (our s) = Some j <-> dget j (their s) = Some c.
+Proof. exact c05_bijective. Qed.
+Print Assumptions C05_map_bijective.
+
+(* ... and that hypothesis is needed: two streams whose first event is not RequestHeaders get the same server id. *)
+Theorem C05_map_bijective_needs_wf : exists s, creach false false s h_nowf /\ ~ bijective s.
+Proof. exact c05_bijection_needs_wf. Qed.
+Print Assumptions C05_map_bijective_needs_wf.
+
+(* every server stream id in use is below the next id the library hands out: none is used twice *)
+Theorem C05_ids_fresh : forall fixd fq s h, creach fixd fq s h -> wf_first [] h = true ->
+  forall j c, dget j (their s) = Some c -> j < next_stream_id (ch (cc s)).
+Proof. exact c05_ids_fresh. Qed.
+Print Assumptions C05_ids_fresh.
+
+(* (3) for ALL histories, while the connection lives: streams opened upstream (in opening order) followed by streams
+   waiting (in queue order) are exactly the client streams in arrival order, each once (none lost, none duplicated,
+   opened first-come-first-served), and nobody waits while the server's limit leaves room. *)
+Theorem C05_fifo_none_lost : forall fixd fq s h, creach fixd fq s h -> dead (cc s) = false ->
+  dkeys (our s) ++ dkeys (queue s) = arrivals h /\ NoDup (arrivals h) /\ (queue s = [] \/ has_free (cc s) = false).
+Proof. exact c05_fifo. Qed.
+Print Assumptions C05_fifo_none_lost.
+
+(* a stream is opened only while open_outbound_streams is below the limit (the server's MAX_CONCURRENT_STREAMS once
+   its SETTINGS arrived, 10 before), and on the library's next stream id *)
+Theorem C05_open_needs_capacity : forall fixd fq s h e s' o, creach fixd fq s h -> client_step fq s (IHttp e) = Ok (s', o) ->
+  dget (hev_sid e) (our s) = None -> dmem (hev_sid e) (our s') = true ->
+  open_outbound (ch (cc s)) < limit (cc s) /\ dget (hev_sid e) (our s') = Some (next_stream_id (ch (cc s))).
+Proof. exact c05_open_needs_capacity. Qed.
+Print Assumptions C05_open_needs_capacity.
+
+(* none lost, at connection teardown.  REFUTED for the shipped code (finding queued-stream-lost-on-close): a waiting
+   stream is still queued, unanswered, after the server connection closed ... *)
+Theorem C05_queued_lost_refuted : exists s, creach false false s h_lost /\ wf_first [] h_lost = true /\
+  dead (cc s) = true /\ dkeys (queue s) = [3].
+Proof. exact c05_queued_lost. Qed.
+Print Assumptions C05_queued_lost_refuted.
+
+(* ... PARTIAL: with the repaired wrapper (fixes/C05-fail-queued-streams-on-close.diff) no reachable state has a dead
+   connection and a waiting stream (each gets a ResponseProtocolError instead). *)
+Theorem C05_queued_failed_partial : forall fixd s h, creach fixd true s h -> dead (cc s) = true -> queue s = [].
+Proof. exact c05_dead_queue_empty. Qed.
+Print Assumptions C05_queued_failed_partial.
+
+(* (4) BufferedH2Connection, per operation: bytes handed to h2 on the stream ++ bytes still buffered = bytes buffered
+   before ++ bytes given, in order, and no other stream is touched ... *)
+Theorem C05_send_data_conserve : forall b sid d es b', b_send_data1 b sid d es = Ok b' ->
+  exists new, pending (bh b') = pending (bh b) ++ new /\
+    forall j, dsent j new ++ bufbytes b' j = bufbytes b j ++ (if j =? sid then d else []).
+Proof. exact b_send_data1_conserve. Qed.
+Print Assumptions C05_send_data_conserve.
+
+(* ... and for the window-update flush: nothing lost or reordered, other streams untouched, queued trailers leave only
+   once the stream buffer is empty and are the last frame. *)
+Theorem C05_flush_conserve : forall f b sid aw sent b' s',
+  flush_loop f b sid aw sent = Ok (b', s') -> NoDup (dkeys (bufs b)) ->
+  NoDup (dkeys (bufs b')) /\
+  exists new, pending (bh b') = pending (bh b) ++ new
+    /\ dsent sid new ++ bufbytes b' sid = bufbytes b sid
+    /\ (forall j, j <> sid -> dsent j new = [] /\ dget j (bufs b') = dget j (bufs b))
+    /\ (forall tok e, In (FHeaders sid HTrail tok e) new ->
+          dget sid (bufs b') = None /\ exists pre, new = pre ++ [FHeaders sid HTrail tok e]).
+Proof. exact flush_loop_conserve. Qed.
+Print Assumptions C05_flush_conserve.
+
+(* Flow control.  REFUTED for the shipped send_data (finding negative-window-crash): after a well-formed history in
+   which the server lowered SETTINGS_INITIAL_WINDOW_SIZE below what was already sent, 9 more request bytes raise
+   FlowControlError out of the layer; the repaired code (fixes/C05-negative-window.diff) buffers them ... *)
+Theorem C05_negwin_refuted :
+  wf_first [] (h_negwin ++ [IHttp (EData 1 (repeat x01 9))]) = true /\
+  (exists s, creach false false s h_negwin /\ client_step false s (IHttp (EData 1 (repeat x01 9))) = Crash) /\
+  (exists s s' o, creach true false s h_negwin /\ client_step false s (IHttp (EData 1 (repeat x01 9))) = Ok (s', o)).
+Proof. exact c05_negwin_crash. Qed.
+Print Assumptions C05_negwin_refuted.
+
+(* ... PARTIAL: the repaired send_data never asks h2 for more than the flow-control window allows, whatever the window. *)
+Theorem C05_negwin_partial : forall b sid d es s,
+  fx b = true -> dget sid (hstreams (bh b)) = Some s -> can_send_st (st s) = true -> conn_closed (bh b) = false ->
+  N.of_nat (length d) <= max_frame (bh b) -> exists b', b_send_data1 b sid d es = Ok b'.
+Proof. exact b_send_data1_fixed_ok. Qed.
+Print Assumptions C05_negwin_partial.
+
+Theorem C05_nonvacuous : exists s, creach true true s h_sample /\ wf_first [] h_sample = true /\ dead (cc s) = false /\
+  our s = [(1, 1)] /\ their s = [(1, 1)] /\ dkeys (queue s) = [3] /\ arrivals h_sample = [1; 3].
+Proof. exact c05_sample. Qed.
+Print Assumptions C05_nonvacuous.
